@@ -279,6 +279,27 @@ Definition dump_named_cmds (ids : list string) : list sexp :=
   map (fun i => inst i "" named_assertion_sx) ids.
 
 (* ------------------------------------------------------------------ sevm.Path *)
+(* dict idx -> value with Python's `d[k] = v` (an existing key keeps its position) *)
+Fixpoint dict_set {V : Type} (m : list (nat * V)) (k : nat) (v : V) : list (nat * V) :=
+  match m with
+  | [] => [(k, v)]
+  | (k', v') :: r => if Nat.eqb k' k then (k, v) :: r else (k', v') :: dict_set r k v
+  end.
+
+Fixpoint dict_get {V : Type} (m : list (nat * V)) (k : nat) : option V :=
+  match m with
+  | [] => None
+  | (k', v') :: r => if Nat.eqb k' k then Some v' else dict_get r k
+  end.
+
+(* related[i] for the indices the model looks up (always present on a well-formed path) *)
+Definition rel_get (m : list (nat * list nat)) (i : nat) : list nat :=
+  match dict_get m i with Some l => l | None => [] end.
+
+(* set.add *)
+Definition set_add (l : list nat) (i : nat) : list nat :=
+  if existsb (Nat.eqb i) l then l else (l ++ [i])%list.
+
 Section PathModel.
   Variable cond : Type.                       (* a z3 Boolean term *)
   Variable cond_eqb : cond -> cond -> bool.   (* structural equality (dict key equality) *)
@@ -290,27 +311,47 @@ Section PathModel.
   Record path : Type := mkPath {
     conditions : list (cond * bool);          (* insertion-ordered dict cond -> branching *)
     pending : list cond;
-    related : list (list nat);                (* idx -> related condition indices *)
-    var_to_conds : list (Z * list nat);
+    related : list (nat * list nat);          (* dict idx -> set of related condition indices *)
+    var_to_conds : list (Z * list nat);       (* defaultdict(set) var -> condition indices *)
     sliced : option (list nat);
     solver : list cond;                       (* assertions visible in the z3 solver when this path is active *)
   }.
 
   Definition empty_path (solver0 : list cond) : path := mkPath [] [] [] [] None solver0.
 
+  Definition v2c_has (m : list (Z * list nat)) (v : Z) : bool :=
+    existsb (fun kv => fst kv =? v) m.
+
+  (* defaultdict.__getitem__ on a missing key stores a new empty set under it *)
+  Definition v2c_touch (m : list (Z * list nat)) (v : Z) : list (Z * list nat) :=
+    if v2c_has m v then m else (m ++ [(v, [])])%list.
+
   Definition v2c_get (m : list (Z * list nat)) (v : Z) : list nat :=
     match find (fun kv => fst kv =? v) m with Some kv => snd kv | None => [] end.
 
-  Fixpoint v2c_add (m : list (Z * list nat)) (v : Z) (idx : nat) : list (Z * list nat) :=
+  Fixpoint v2c_update (m : list (Z * list nat)) (v : Z) (f : list nat -> list nat) : list (Z * list nat) :=
     match m with
-    | [] => [(v, [idx])]
-    | (k, l) :: r => if k =? v then (k, (l ++ [idx])%list) :: r else (k, l) :: v2c_add r v idx
+    | [] => []
+    | (k, l) :: r => if k =? v then (k, f l) :: r else (k, l) :: v2c_update r v f
     end.
 
-  (* Path._get_related: conds = union of var_to_conds[var]; result = conds ∪ related[cond] *)
-  Definition get_related (p : path) (var_set : list Z) : list nat :=
-    let conds := flat_map (v2c_get (var_to_conds p)) var_set in
-    (conds ++ flat_map (fun i => nth i (related p) []) conds)%list.
+  (* self.var_to_conds[var].add(idx) *)
+  Definition v2c_add (m : list (Z * list nat)) (v : Z) (idx : nat) : list (Z * list nat) :=
+    v2c_update (v2c_touch m v) v (fun l => set_add l idx).
+
+  (* for var in var_set: conds.update(self.var_to_conds[var]) *)
+  Fixpoint v2c_collect (m : list (Z * list nat)) (vs : list Z) (acc : list nat)
+    : list nat * list (Z * list nat) :=
+    match vs with
+    | [] => (acc, m)
+    | v :: r => let m' := v2c_touch m v in v2c_collect m' r (acc ++ v2c_get m' v)%list
+    end.
+
+  (* Path._get_related: conds = union of var_to_conds[var]; result = conds U related[cond];
+     also returns var_to_conds, which the look-ups may have extended with empty sets *)
+  Definition get_related (p : path) (var_set : list Z) : list nat * list (Z * list nat) :=
+    let (conds, m') := v2c_collect (var_to_conds p) var_set [] in
+    ((conds ++ flat_map (rel_get (related p)) conds)%list, m').
 
   Definition has_cond (c : cond) (l : list (cond * bool)) : bool :=
     existsb (fun cb => cond_eqb c (fst cb)) l.
@@ -323,9 +364,10 @@ Section PathModel.
     else
       let idx := List.length (conditions p) in
       let vs := vars c in
+      let (rel, m1) := get_related p vs in
       mkPath (conditions p ++ [(c, branching)])%list (pending p)
-             (related p ++ [get_related p vs])%list
-             (fold_left (fun m v => v2c_add m v idx) vs (var_to_conds p))
+             (dict_set (related p) idx rel)
+             (fold_left (fun m v => v2c_add m v idx) vs m1)
              (sliced p) (solver p ++ [c])%list.
 
   Definition extend (p : path) (cs : list cond) (branching : bool) : path :=
@@ -348,8 +390,9 @@ Section PathModel.
   Definition slice (p : path) (var_set : list Z) : option path :=
     match sliced p with
     | Some _ => None
-    | None => Some (mkPath (conditions p) (pending p) (related p) (var_to_conds p)
-                           (Some (get_related p var_set)) (solver p))
+    | None =>
+        let (rel, m') := get_related p var_set in
+        Some (mkPath (conditions p) (pending p) (related p) m' (Some rel) (solver p))
     end.
 
   Fixpoint select_idx (l : list (cond * bool)) (idx : nat) (keep : list nat) : list cond :=
@@ -360,27 +403,34 @@ Section PathModel.
         else select_idx r (S idx) keep
     end.
 
-  (* Path.extend_path (self = p, argument = parent) *)
+  (* what Path.extend_path adds to the solver of the new path *)
+  Definition solver_additions (conds : list (cond * bool)) (parent_sliced : option (list nat)) : list cond :=
+    match parent_sliced with
+    | None => map fst conds
+    | Some sl => select_idx conds 0 sl
+    end.
+
+  (* Path.extend_path (self = p, argument = parent), each container copied *)
   Definition extend_path (p parent : path) : path :=
-    let add := match sliced parent with
-               | None => map fst (conditions parent)
-               | Some sl => select_idx (conditions parent) 0 sl
-               end in
     mkPath (conditions parent) (pending p) (related parent) (var_to_conds parent)
-           (sliced p) (solver p ++ add)%list.
+           (sliced p) (solver p ++ solver_additions (conditions parent) (sliced parent))%list.
 
   (* Path.to_smt2: every key of `conditions`, in order; tracked by its id with --cache-solver *)
   Inductive qassert : Type := QPlain (c : cond) | QTracked (id : Z) (c : cond).
 
+  Definition to_smt2_of (conds : list (cond * bool)) (cache_solver : bool) : list qassert * list Z :=
+    (map (fun cb => if cache_solver then QTracked (cid (fst cb)) (fst cb) else QPlain (fst cb)) conds,
+     map (fun cb => cid (fst cb)) conds).
+
   Definition to_smt2 (p : path) (cache_solver : bool) : list qassert * list Z :=
-    (map (fun cb => if cache_solver then QTracked (cid (fst cb)) (fst cb) else QPlain (fst cb))
-         (conditions p),
-     map (fun cb => cid (fst cb)) (conditions p)).
+    to_smt2_of (conditions p) cache_solver.
 
   (* a path's life: operations applied to the currently executing path object *)
   Inductive pop : Type :=
   | OAppend (c : cond) (branching : bool)   (* path.append(c, branching) *)
   | OBranch (c : cond)                      (* child = path.branch(c); child.activate(); continue in child *)
+  | OFork (c : cond)                        (* child = path.branch(c); continue in the (pending) child *)
+  | OActivate                               (* path.activate() *)
   | OSlice (var_set : list Z)               (* path.slice(var_set) at the end of a transaction *)
   | OExtend (fresh_solver : list cond).     (* new = Path(solver); new.extend_path(path); continue in new *)
 
@@ -388,6 +438,8 @@ Section PathModel.
     match o with
     | OAppend c b => Some (append p c b)
     | OBranch c => match branch p c with Some q => Some (activate q) | None => None end
+    | OFork c => branch p c
+    | OActivate => Some (activate p)
     | OSlice vs => slice p vs
     | OExtend s0 => Some (extend_path (empty_path s0) p)
     end.
@@ -398,9 +450,30 @@ Section PathModel.
     | o :: r => match step p o with Some q => run q r | None => None end
     end.
 
-  (* every constraint handed to the path, in order *)
-  Definition accumulated (ops : list pop) : list cond :=
-    flat_map (fun o => match o with OAppend c _ => [c] | OBranch c => [c] | _ => [] end) ops.
+  (* every constraint handed to the path, in the order in which it joins the path: the
+     condition of a fork is pending until the forked path is activated *)
+  Fixpoint accumulated_from (pend : list cond) (ops : list pop) : list cond :=
+    match ops with
+    | [] => []
+    | OAppend c _ :: r => c :: accumulated_from pend r
+    | OBranch c :: r => c :: accumulated_from pend r
+    | OFork c :: r => accumulated_from (pend ++ [c]) r
+    | OActivate :: r => (pend ++ accumulated_from [] r)%list
+    | OSlice _ :: r => accumulated_from pend r
+    | OExtend _ :: r => accumulated_from [] r      (* the new Path object has nothing pending *)
+    end.
+
+  Definition accumulated (ops : list pop) : list cond := accumulated_from [] ops.
+
+  (* what the solvers handed to Path(...) already held: the first one, then one per extension *)
+  Definition bases (s0 : list cond) (ops : list pop) : list cond :=
+    (s0 ++ flat_map (fun o => match o with OExtend s1 => s1 | _ => [] end) ops)%list.
+
+  Definition last_base (s0 : list cond) (ops : list pop) : list cond :=
+    fold_left (fun b o => match o with OExtend s1 => s1 | _ => b end) ops s0.
+
+  Definition no_slice (ops : list pop) : bool :=
+    forallb (fun o => match o with OSlice _ => false | _ => true end) ops.
 End PathModel.
 
 Arguments mkPath {cond}.
@@ -414,6 +487,8 @@ Arguments QPlain {cond}.
 Arguments QTracked {cond}.
 Arguments OAppend {cond}.
 Arguments OBranch {cond}.
+Arguments OFork {cond}.
+Arguments OActivate {cond}.
 Arguments OSlice {cond}.
 Arguments OExtend {cond}.
 
